@@ -254,6 +254,37 @@ func c13CheckDriver(w *c13World, c c13Case) (viol string) {
 	if g != f {
 		return fmt.Sprintf("grpc data source returned %s, file data source returned %s", g, f)
 	}
+	// pool history on the grpc handle: two connections in use at once, one of them closed (idle limit 1), a transaction
+	// holding a connection, then the query again on the surviving connection(s)
+	r1, e1 := gdb.Query(c.Text)
+	r2, e2 := gdb.Query(c.Text)
+	if e1 == nil {
+		r1.Close()
+	}
+	if e2 == nil {
+		r2.Close()
+	}
+	gdb.SetMaxIdleConns(1)
+	for i := 0; i < 2; i++ {
+		if g2 := run(gdb); g2 != f {
+			return fmt.Sprintf("after two connections of the grpc handle were in use and one was closed (idle limit 1), query #%d on the surviving connection returned %s, the file data source returns %s", i+1, g2, f)
+		}
+	}
+	if tx, err := gdb.Begin(); err == nil {
+		if rows, err := tx.Query(c.Text); err == nil {
+			rows.Close()
+		}
+		r3, e3 := gdb.Query(c.Text)
+		if e3 == nil {
+			r3.Close()
+		}
+		tx.Rollback()
+	}
+	for i := 0; i < 3; i++ {
+		if g2 := run(gdb); g2 != f {
+			return fmt.Sprintf("after using two connections of the grpc handle and closing one, query #%d on it returned %s, the file data source returns %s", i+1, g2, f)
+		}
+	}
 	return ""
 }
 
